@@ -1340,6 +1340,34 @@ theorem reversedPair_singleVia :
       .error .noPath := by
   decide +kernel
 
+/-- the diamond with lengths 1, 1, 3, 5/2, a time feature and a turn-delay table without an entry
+for "left" (`Turn` number 4): edge headings 0, 0, 90, 0, so only the turn (e2, e3) is a left turn -/
+def missingDelay : Config ℚ where
+  nV := 4
+  edges := [⟨0, 1, 1⟩, ⟨1, 3, 1⟩, ⟨0, 2, 3⟩, ⟨2, 3, 5 / 2⟩]
+  outAdj := [[0, 2], [1], [3], []]
+  inAdj := [[], [0], [2], [1, 3]]
+  feats := [{ name := "distance", kind := .dist .meters, init := 0 },
+            { name := "time", kind := .time .seconds, init := 0 }]
+  trav := .distance .meters
+  access := .turnDelay .seconds [(0, none), (0, none), (90, none), (0, none)]
+    [some 1, some 1, some 1, some 1, none, some 1, some 1, some 1]
+  cost := { indices := [0, 1], weights := [1, 0], vehicleRates := [.raw, .zero],
+            networkRates := [.zero, .zero], agg := .sum }
+  frontier := []
+  term := .combined []
+  reverse := false
+  gc := List.replicate 4 0
+  wf := some 0
+
+/-- the plain search answers `0 → 3`; single-via fails with the access model's error raised while
+re-traversing the alternative through vertex 2, whose junction turn no search ever evaluated -/
+theorem missingDelay_runs :
+    idsOf (missingDelay.fwd.runVertex 0 (some 3) [0, 1, 3]) = .ok [[0, 1]] ∧
+    idsOf (singleVia missingDelay (List.replicate 4 0) simAcceptAll .exact 0 3 2 [0, 1, 3] [3, 1, 0]
+      [1, 2]) = .error .access := by
+  decide +kernel
+
 /-! #### Yen's algorithm on concrete networks (each is a corpus witness of the harness, where the
 real code shows the same behaviour; schedules are the ones the implementation took) -/
 
